@@ -1,11 +1,11 @@
-\* thorough, exhaustive: as MC_quick but with the limit change requesting a cycle (repaired position). 2 users, 3 uploads (user 1 has two), limit 1 changed once,
-\* unbounded life cycles, plain attributes. 99 = Unbounded.
+\* thorough, exhaustive: 2 users, 3 uploads (user 1 has two), limit 1 changed once, unbounded life cycles, plain attributes.
 SPECIFICATION Spec
 CONSTANTS
   UploadIds = {1, 2, 3}
   PerUser = 2
   MaxSlots = 2
   InitSlots = {1}
+  InitTruth = {"unknown"}
   AnyInitAttr = FALSE
   Statuses = {"unknown", "offline", "away", "online"}
   SlotBudget = 1
@@ -21,6 +21,9 @@ CONSTANTS
   WPriv = 100
   StateChangeNotifies = TRUE
   SlotsChangeNotifies = TRUE
+  TaskEndNotifies = FALSE
+  RequeueTail = FALSE
+  TrackPerUser = TRUE
 INVARIANT TypeOK
 INVARIANT OnePerUser
 INVARIANT FlagsIffQueued
@@ -28,6 +31,8 @@ INVARIANT WakeIffRunnable
 INVARIANT NoDoubleTask
 INVARIANT TaskOnlyQueued
 INVARIANT OneTaskPerUser
+INVARIANT KnowledgeKept
+INVARIANT NoTaskWhileInFlight
 PROPERTY StartRespectsLimit
 PROPERTY NeverOffline
 PROPERTY PriorityHolds
